@@ -31,4 +31,6 @@ def run(ctx):
     lib_py.facade_guard(ctx, py, "tables", "BaseTable.__getitem__", "index", "ll_table.get_row", upper="len(self)")
     lib_py.ll_positional(ctx, py, P, only=ps)
     lib_py.unused_params(ctx, py, mods=("tables",), only=ps)
+    lib_module.name_agreement(ctx, P, classes=lib_module.TABLE_CLASSES + ("TableCollection",), floor=150)
+    lib_py.facade_names(ctx, py, P, classes=tuple(("tables", c) for c in lib_py.FACADES["tables"]), floor=60)
     lib_mem.c_lints(ctx, ctx.program(), scopes.lib_scope("C13"))
